@@ -1133,7 +1133,7 @@ func (c *Check) writeReplay(mp *plan.Plan, mv, orig *Violation, dims []string) s
 		Recurrence: rec, Minimised: true, SizeBefore: planSize(orig.Plan), SizeAfter: planSize(mp), Dimension: strings.Join(dims, ",")}
 	q.Property = c.prop
 	b, _ := json.MarshalIndent(q, "", " ")
-	dir := filepath.Join(verifDir, "replays")
+	dir := filepath.Join(artifactDir, "replays")
 	os.MkdirAll(dir, 0o755)
 	name := fmt.Sprintf("%s-%d-%08x.json", c.prop, c.seed, gen.HashString(mv.Class+string(b))&0xffffffff)
 	path := filepath.Join(dir, name)
